@@ -299,6 +299,25 @@ def wrappers(mods, coord):
                 body = body[1:]
             # accepted bodies:  `return f(...)`   or   `a, b, c = f(...)` / `res = f(...)` followed by a `return` of
             # exactly those names in that order (the same value, named first)
+            # leading `alias = NAME` / `a, b = X, Y` statements (each alias bound once, to a plain name) are
+            # substituted into what follows
+            alias = {}
+            while len(body) > 1 and isinstance(body[0], ast.Assign) and len(body[0].targets) == 1 \
+                    and not isinstance(body[0].value, ast.Call):
+                tg, vl = body[0].targets[0], body[0].value
+                if isinstance(tg, ast.Name) and isinstance(vl, ast.Name):
+                    pairs = [(tg.id, vl.id)]
+                elif isinstance(tg, ast.Tuple) and isinstance(vl, ast.Tuple) and len(tg.elts) == len(vl.elts) \
+                        and all(isinstance(e, ast.Name) for e in tg.elts + vl.elts):
+                    pairs = [(a.id, b.id) for a, b in zip(tg.elts, vl.elts)]
+                else:
+                    fail(where + ': unsupported statement before the call: ' + ast.unparse(body[0]))
+                for a, b in pairs:
+                    if a in alias or a in [x.arg for x in f.args.args] or any(a == v for v in alias.values()):
+                        fail(where + ': name %s is bound twice' % a)
+                for a, b in pairs:            # a tuple assignment evaluates its right side first
+                    alias[a] = alias.get(b, b)
+                body = body[1:]
             call = None
             if len(body) == 1 and isinstance(body[0], ast.Return) and isinstance(body[0].value, ast.Call):
                 call = body[0].value
@@ -355,6 +374,7 @@ def wrappers(mods, coord):
                     return 'true' if a.value else 'false'
                 return None
             an = [plain(a) for a in args]
+            an = [alias.get(a, a) if a is not None else None for a in an]
             if any(a is None for a in an):
                 fail(where + ': arguments are not plain names')
             if not an or an[0] != 'epoch' or params[:1] != ['epoch']:
